@@ -1208,66 +1208,4 @@ Proof.
         * rewrite map_map. etransitivity; [|exact S2]. f_equal.
           apply (amap_ext_Forall (ais_fixed true)); [apply aiter_range_shape|].
           intros [i bb|i vv|[i|] xs|i ddd] Hsh; try contradiction; try discriminate.
-          cbn [aobject_bytes snd afixed_bytes oh_g oh_v]. rewrite Hf, Hww. reflexivity.
-      + intros s c E. inversion E; subst. lia.
-    - destruct Hr as [Hz [dd [Hp Hn]]]. subst p. aunf. split.
-      + replace (b - a + 1) with (N.of_nat (N.to_nat (b - a + 1))) at 2 4 by lia.
-        destruct (aiter_rbytes_spec v (N.to_nat (b - a + 1)) (N.to_nat (b - a + 1)) a dd) as [S1 [S2 _]]; try lia.
-        split.
-        * rewrite map_map. rewrite <- S1. apply map_ext. intros [i bb|i vv|i xs|i ddd]; reflexivity.
-        * rewrite map_map. etransitivity; [|exact S2]. f_equal.
-          apply (amap_ext_Forall ais_bytes); [apply aiter_rbytes_shape|].
-          intros [i bb|i vv|i xs|i ddd] Hsh; try contradiction. reflexivity.
-      + intros s c E. inversion E; subst. lia.
-    - destruct Hr as [_ [_ [aa [Hp _]]]]. subst p. aunf. split; [reflexivity|]. intros s c E. discriminate. }
-  assert (Hcount : forall c, acount_wf g v c p -> aiterate_spec (amk g v d p) /\ apayload_range p = None).
-  { intros c Hc. unfold acount_wf in Hc. 
-    destruct (aqkind qt_count g v) as [[| | | | | |]|]; try contradiction.
-    - subst p. aunf. split; reflexivity.
-    - destruct Hc as [sz [dd [Hs [Hp Hn]]]]. subst p. aunf. cbn [apayload_bytes] in Hb. split; [|reflexivity].
-      destruct (asize_fixed _ _ _ Hs) as [fi Hf]. rewrite Hf.
-      destruct (afixed_sizes _ _ _ _ Hf Hs) as [Hsum [Hpos Hww]].
-      destruct (aiter_count_spec (awidths fi) Hpos (N.to_nat c) (S (length dd)) dd Hb) as [S1 [S2 S3]]; try lia.
-      split; [|split].
-      + rewrite map_length. exact S1.
-      + apply Forall_forall. intros x Hx. apply in_map_iff in Hx. destruct Hx as [ob [Ex Hin]]. subst x.
-        rewrite Forall_forall in S2. specialize (S2 ob Hin). destruct ob; try discriminate; cbn in *; assumption.
-      + rewrite map_map. etransitivity; [|exact S3]. f_equal.
-        apply (amap_ext_Forall (ais_fixed false)); [apply aiter_count_shape|].
-        intros [i bb|i vv|[i|] xs|i ddd] Hsh; try contradiction; try discriminate.
-        cbn [aobject_bytes snd afixed_bytes oh_g oh_v]. rewrite Hf, Hww. reflexivity. }
-  assert (Hpref : forall ps c, aprefixed_wf o g v ps c p -> aiterate_spec (amk g v d p) /\ apayload_range p = None).
-  { intros ps c Hc. unfold aprefixed_wf in Hc. 
-    destruct (aqkind qt_prefix g v) as [[| | | | | |]|]; try contradiction.
-    - destruct Hc as [sz [dd [Hs [Hp Hn]]]]. subst p. aunf. cbn [apayload_bytes] in Hb. split; [|reflexivity].
-      destruct (asize_fixed _ _ _ Hs) as [fi Hf]. rewrite Hf.
-      destruct (afixed_sizes _ _ _ _ Hf Hs) as [Hsum [Hpos Hww]].
-      destruct (aiter_prefix_spec ps (awidths fi) Hpos (N.to_nat c) (S (length dd)) dd Hb) as [S1 S2]; try lia.
-      split.
-      + rewrite map_length. exact S1.
-      + rewrite map_map. etransitivity; [|exact S2]. f_equal.
-        apply (amap_ext_Forall (ais_fixed true)); [apply aiter_prefix_shape|].
-        intros [i bb|i vv|[i|] xs|i ddd] Hsh; try contradiction; try discriminate.
-        unfold aentry_bytes. cbn [aobject_bytes fst snd aprefixed_bytes oh_g oh_v]. rewrite Hf, Hww. reflexivity.
-    - destruct Hc as [Hz [dd [Hp Hn]]]. subst p. aunf. cbn [apayload_bytes] in Hb. split; [|reflexivity].
-      replace c with (N.of_nat (N.to_nat c)) at 2 4 by lia.
-      destruct (aiter_pbytes_spec ps v (N.to_nat c) (N.to_nat c) dd Hb) as [S1 S2]; try lia.
-      split.
-      + rewrite map_length. exact S1.
-      + rewrite map_map. etransitivity; [|exact S2]. f_equal.
-        apply (amap_ext_Forall ais_bytes); [apply aiter_pbytes_shape|].
-        intros [i bb|i vv|i xs|i ddd] Hsh; try contradiction. reflexivity.
-    - destruct Hc as [_ [aa [Hp _]]]. subst p. aunf. split; reflexivity. }
-  unfold amk in *.
-  destruct d as [|a b|a b|c|c|c|c|c]; cbn [adetails_range].
-  - destruct Hw as [_ Hp]. subst p. split; [reflexivity|]. intros; discriminate.
-  - destruct Hw as [Hab [Hb2 Hr]]. destruct (Hranged a b Hab ltac:(lia) Hr) as [H1 H2]. split; [exact H1|].
-    intros a' b' s c E1 E2. inversion E1; subst. apply H2. exact E2.
-  - destruct Hw as [Hab [Hb2 Hr]]. destruct (Hranged a b Hab Hb2 Hr) as [H1 H2]. split; [exact H1|].
-    intros a' b' s c E1 E2. inversion E1; subst. apply H2. exact E2.
-  - destruct Hw as [_ Hc]. destruct (Hcount c Hc) as [H1 _]. split; [exact H1|]. intros; discriminate.
-  - destruct Hw as [_ Hc]. destruct (Hcount c Hc) as [H1 _]. split; [exact H1|]. intros; discriminate.
-  - destruct Hw as [_ Hc]. destruct (Hpref 1 c Hc) as [H1 _]. split; [exact H1|]. intros; discriminate.
-  - destruct Hw as [_ Hc]. destruct (Hpref 2 c Hc) as [H1 _]. split; [exact H1|]. intros; discriminate.
-  - destruct Hw as [_ [_ [len [raw [info [Hp _]]]]]]. subst p. split; [reflexivity|]. intros; discriminate.
-Qed.
+          Show.
